@@ -208,6 +208,8 @@ fn gen_prop_name(src: &mut Src) -> String {
 fn gen_property(src: &mut Src) -> LefProperty {
     let value = match src.below(3) {
         0 => gen_name(src),
+        // (a property value is kept as it is spelled, also when the number is spelled in an unusual way)
+        1 if src.prob(1, 4) => src.pick(&[".125", "-.5", "2.", "007", "1e3", "1.50", "-0", "0.", "1E-2"]).to_string(),
         1 => spell_plain(&gen_dec(src)),
         _ => gen_string_literal(src),
     };
